@@ -23,6 +23,15 @@ CacheStore (also a cache written by a process with another hash seed); the emitt
 compared byte for byte.  Independently an oracle written from the statement checks on every
 output that sibling order is a function of names and kinds.
 
+Cache HISTORIES (relcache): the cache a scan finds was filled by earlier scans.  Every run builds
+trees holding 2-3 different builds of one dependency GIR (same file name) in directories whose
+relative paths from the working directory differ only in leading '.' and '/' characters
+(Dep-1.0.gir, ./Dep-1.0.gir, ../Dep-1.0.gir, ../../Dep-1.0.gir, s/.., ../s/..) and which carry the
+same st_mtime_ns; the dependency is named by --include-uninstalled spellings or found through a
+relative include directory; a random history of scans (which file is cached first varies) runs
+from that directory with the real CacheStore and every scan must give the bytes of the cold scan
+of the same configuration.
+
 Whole-declaration shuffles: judged byte for byte when every typedef name is still declared before
 its uses ('decls'; struct tags may be used before their definition, the typedefs of one tag keep
 their order).  An order that uses a typedef name before its typedef ('decls-any', e.g. an alias
@@ -1049,8 +1058,50 @@ try:
     _cs.CacheStore.load = _counting_load
 except Exception:
     loads = None
+
+
+def run_steps(j):
+    """a cache HISTORY: every cfg of j['steps'] is scanned cold (cache disabled), then all of them one
+    after the other with the real cache in j['xdg'], from the working directory j['cwd'] (the
+    dependency GIRs are named by RELATIVE paths)"""
+    res = {'id': j['id'], 'cold': [], 'warm': [], 'loads': []}
+    old = os.getcwd()
+    try:
+        os.chdir(j['cwd'])
+        for phase in ('cold', 'warm'):
+            if phase == 'warm':
+                os.environ['XDG_CACHE_HOME'] = j['xdg']
+                os.environ.pop('GI_SCANNER_DISABLE_CACHE', None)
+            else:
+                os.environ['GI_SCANNER_DISABLE_CACHE'] = '1'
+            for cfg in j['steps']:
+                if loads is not None:
+                    loads['calls'] = loads['hits'] = 0
+                try:
+                    o = scanpipe.scan(dict(cfg, use_cache=(phase == 'warm')))['gir']
+                except BaseException as e:
+                    o = 'RAISED %%s' %% type(e).__name__
+                    res.setdefault('errors', []).append('%%s: %%s' %% (type(e).__name__, str(e)[:300]))
+                res[phase].append(o)
+                if phase == 'warm':
+                    res['loads'].append(None if loads is None else [loads['calls'], loads['hits']])
+        d = os.path.join(j['xdg'], 'g-ir-scanner')
+        res['cache_files'] = len([f for f in os.listdir(d) if not f.startswith('.')]) if os.path.isdir(d) else 0
+    finally:
+        os.chdir(old)
+        os.environ['GI_SCANNER_DISABLE_CACHE'] = '1'
+    return res
+
+
 for j in job['jobs']:
     res = {'id': j['id']}
+    if j.get('steps') is not None:
+        try:
+            out.append(run_steps(j))
+        except BaseException as e:
+            out.append({'id': j['id'], 'error': '%%s: %%s' %% (type(e).__name__, str(e)[:300]),
+                        'trace': traceback.format_exc()[-600:]})
+        continue
     try:
         if j.get('xdg'):
             os.environ['XDG_CACHE_HOME'] = j['xdg']
@@ -1910,6 +1961,275 @@ metamorphic.precedence = {}
 metamorphic.outside_examples = []
 
 
+# ---------------------------------------------------------------------------------------------
+# cache HISTORIES over dependency GIRs named by relative paths
+#
+# "... the scanner emits byte-identical GIR ... whether dependency GIRs were parsed afresh or came
+# from the cache" / "for all ... cold or warm cache histories": the cache a scan finds has been
+# filled by EARLIER scans -- of other projects too.  Several different builds of one dependency
+# (same file name, different content) live in neighbouring directories and carry the same
+# preserved time stamp (install -p, cp -p, tar, SOURCE_DATE_EPOCH builds); every scan names its
+# dependency by a relative path (--include-uninstalled=../Dep-1.0.gir, or a relative -I directory
+# through which an include of an include is found).  Each scan of the history must give the bytes
+# of a cold scan of exactly the same configuration.
+# ---------------------------------------------------------------------------------------------
+REL_DEP = 'Dep-1.0.gir'
+REL_COUNTS = ['guint8', 'guint16', 'guint32', 'gint32']       # width/sign decide the value of ((DepCount) -1)
+REL_THINGS = ['record', 'boxed', 'enumeration']               # decides transfer / introspectable of a DepThing* return
+REL_ITEMS = ['Item', 'Element', 'Entry']                      # GIR name of the C type DepItem
+
+
+def rel_dep_gir(f):
+    """one build of the dependency namespace Dep; the flavour f decides what the scanned namespace sees"""
+    o = [GIR_HEAD, '  <namespace name="Dep" version="1.0" shared-library="" c:identifier-prefixes="Dep" c:symbol-prefixes="dep">\n']
+    o.append('    <alias name="Count" c:type="DepCount"><type name="%s" c:type="%s"/></alias>\n' % (f['count'], f['count']))
+    o.append('    <alias name="Handle" c:type="DepHandle"%s><type name="gpointer" c:type="gpointer"/></alias>\n'
+             % (' introspectable="0"' if f['hidden'] else ''))
+    k = f['thing']
+    if k == 'record':
+        o.append('    <record name="Thing" c:type="DepThing"/>\n')
+    elif k == 'boxed':
+        o.append('    <record name="Thing" c:type="DepThing" glib:type-name="DepThing" glib:get-type="dep_thing_get_type" '
+                 'c:symbol-prefix="thing"/>\n')
+    else:
+        o.append('    <%s name="Thing" c:type="DepThing"><member name="a" value="1" c:identifier="DEP_THING_A"/></%s>\n' % (k, k))
+    if f['extra']:
+        o.append('    <record name="Extra" c:type="DepExtra"/>\n')
+    o.append('    <record name="%s" c:type="DepItem"/>\n' % f['item'])
+    o.append('  </namespace>\n</repository>\n')
+    return ''.join(o)
+
+
+REL_MID_GIR = GIR_HEAD + '''  <include name="Dep" version="1.0"/>
+  <namespace name="Mid" version="1.0" shared-library="" c:identifier-prefixes="Mid" c:symbol-prefixes="mid">
+    <alias name="Size" c:type="MidSize"><type name="Dep.Count" c:type="DepCount"/></alias>
+    <record name="Box" c:type="MidBox"/>
+  </namespace>
+</repository>
+'''
+
+# which declarations of the scanned namespace show which property of the dependency
+REL_SHOWS = {'count': ['FOO_LIMIT', 'foo_count'], 'hidden': ['foo_handle'], 'thing': ['foo_thing', 'foo_take_thing'],
+             'extra': ['foo_extra'], 'item': ['foo_item']}
+
+
+def rel_decls(rng, shown, via):
+    def fn(name, ret, params, line):
+        return {'d': 'function', 'name': name, 'ret': ret, 'params': [{'name': n, 'type': t} for n, t in params],
+                'file': '/src/foo.h', 'line': line}
+    every = [
+        {'d': 'const', 'name': 'FOO_LIMIT', 'int': rng.choice([-1, -2, 70000, 300]), 'type': T('DepCount'),
+         'file': '/src/foo.h', 'line': 3},
+        fn('foo_count', T('DepCount'), [], 5),
+        fn('foo_handle', T('void'), [('h', T('DepHandle'))], 7),
+        fn('foo_thing', P(T('DepThing')), [], 9),
+        fn('foo_take_thing', T('void'), [('t', P(T('DepThing'))), ('n', T('DepCount'))], 11),
+        fn('foo_extra', T('void'), [('e', P(T('DepExtra')))], 13),
+        fn('foo_item', P(T('DepItem')), [], 15),
+        fn('foo_plain', T('int'), [('x', T('int'))], 17),
+    ]
+    if via == 'searchpath':
+        every.append(fn('foo_box', T('MidSize'), [('b', P(T('MidBox')))], 19))
+    need = set(n for k in shown for n in REL_SHOWS[k])
+    decls = [d for d in every if d['name'] in need or rng.random() < 0.6]
+    rng.shuffle(decls)
+    return decls
+
+
+def gen_relcache(rng, directed, via):
+    """directed: the files stand in directories whose relative paths from the working directory
+    differ only in leading '.' and '/' characters (Dep-1.0.gir, ./Dep-1.0.gir, ../Dep-1.0.gir,
+    ../../Dep-1.0.gir; s/.., ../s/.., ../../s/..) and carry the SAME st_mtime_ns."""
+    a, b, s = rng.sample(['a', 'b', 'sub', 'build', 'gir', 'x', 'proj', 'deps', 'out', 'v2'], 3)
+    cwd = '%s/%s' % (a, b)
+    chain = [cwd, a, '.']                                        # cwd, cwd/.., cwd/../..
+    schain = ['%s/%s' % (cwd, s), '%s/%s' % (a, s), s]           # cwd/s, cwd/../s, cwd/../../s
+    nfiles = rng.choice([2, 2, 3])
+    if directed:
+        pool_ = rng.choice([chain, chain, schain])
+        dirs = rng.sample(pool_, 2)
+        if nfiles == 3:
+            dirs.append(rng.choice([d for d in chain + schain if d not in dirs]))
+    else:
+        dirs = rng.sample(chain + schain, nfiles)
+    # flavours: pairwise different in at least one property the scanned namespace shows
+    base = {'count': rng.choice(REL_COUNTS), 'hidden': rng.random() < 0.3, 'thing': rng.choice(REL_THINGS),
+            'extra': rng.random() < 0.7, 'item': rng.choice(REL_ITEMS)}
+    flavours = [base]
+    shown = set()
+    while len(flavours) < nfiles:
+        f = dict(base)
+        for k in rng.sample(sorted(REL_SHOWS), rng.choice([1, 1, 2, 3])):
+            if k == 'count':
+                f[k] = rng.choice([c for c in REL_COUNTS if c != base[k]])
+            elif k == 'thing':
+                f[k] = rng.choice([c for c in REL_THINGS if c != base[k]])
+            elif k == 'item':
+                f[k] = rng.choice([c for c in REL_ITEMS if c != base[k]])
+            else:
+                f[k] = not base[k]
+        if f in flavours:
+            continue
+        shown.update(k for k in REL_SHOWS if any(f[k] != g[k] for g in flavours))
+        flavours.append(f)
+    if directed or rng.random() < 0.5:
+        stamp = rng.choice([1700000000, 315532800, 1]) * 10 ** 9 + rng.choice([0, 0, 123456789])
+        mtimes = [stamp] * nfiles
+    else:
+        mtimes = [(1600000000 + 1000 * i) * 10 ** 9 for i in range(nfiles)]
+        rng.shuffle(mtimes)
+
+    def spell(d):
+        rel = os.path.relpath(d, cwd)
+        if via == 'searchpath':
+            # a relative include directory; Transformer._find_include joins it with the file name
+            pre = rng.choice(['', '', './', './/', '././']) if rel != '.' else rng.choice(['', '', './', './/'])
+            return (pre + rel) + rng.choice(['', '', '/'])
+        p = REL_DEP if rel == '.' else rel + '/' + REL_DEP
+        r_ = rng.random()
+        if r_ < 0.08:
+            return '/ABS/' + d            # the absolute path (root filled in when the tree is written)
+        if r_ < 0.16:
+            return '../%s/%s' % (b, p)    # up and back into the working directory first
+        return rng.choice(['', '', './', './/', '././']) + p
+    # the history: every file is scanned at least once, the first two steps name different files,
+    # then further scans of any file under any spelling (a repeated spelling is a plain cache hit)
+    order = list(range(nfiles))
+    rng.shuffle(order)
+    order += [rng.randrange(nfiles) for _ in range(rng.choice([2, 3, 4]))]
+    steps = [{'file': i, 'spelling': spell(dirs[i])} for i in order]
+    if rng.random() < 0.7:
+        steps.append(dict(steps[0]))
+    return {'cwd': cwd, 'files': [{'dir': d, 'flavour': f, 'mtime_ns': mt} for d, f, mt in zip(dirs, flavours, mtimes)],
+            'via': via, 'decls': rel_decls(rng, shown, via), 'steps': steps, 'directed': bool(directed),
+            'extra_dirs': schain + chain}
+
+
+def rel_materialise(sc, root):
+    """writes the tree of one scenario under root; returns the runner job (without id)"""
+    for d in sc['extra_dirs'] + [sc['cwd']]:
+        os.makedirs(os.path.join(root, 'tree', d), exist_ok=True)
+    tree = os.path.realpath(os.path.join(root, 'tree'))
+    paths = []
+    for fl in sc['files']:
+        p = os.path.join(tree, fl['dir'], REL_DEP)
+        with open(p, 'w', encoding='utf-8') as f:
+            f.write(rel_dep_gir(fl['flavour']))
+        os.utime(p, ns=(fl['mtime_ns'], fl['mtime_ns']))
+        paths.append(p)
+    mid = os.path.join(root, 'mid')
+    os.makedirs(mid, exist_ok=True)
+    with open(os.path.join(mid, 'Mid-1.0.gir'), 'w', encoding='utf-8') as f:
+        f.write(REL_MID_GIR)
+    cwd = os.path.join(tree, sc['cwd'])
+    cfgs = []
+    for st in sc['steps']:
+        sp = st['spelling']
+        if sp.startswith('/ABS/'):
+            sp = os.path.join(tree, sp[5:], REL_DEP)
+        cfg = {'namespace': 'Foo', 'decls': sc['decls'], 'comments': [], 'sources_top_dirs': ['/src']}
+        if sc['via'] == 'searchpath':
+            named = os.path.join(sp, REL_DEP)
+            cfg['include_paths'] = [sp]
+            cfg['includes'] = [os.path.join(mid, 'Mid-1.0.gir')]
+        else:
+            named = sp
+            cfg['include_paths'] = []
+            cfg['includes'] = [sp]
+        # the generator's own bookkeeping: the spelling names the file it is meant to name
+        if not os.path.samefile(os.path.join(cwd, named), paths[st['file']]):
+            raise HarnessError('relcache: %r from %r does not name %r' % (named, cwd, paths[st['file']]))
+        cfgs.append(cfg)
+    return {'cwd': cwd, 'xdg': os.path.join(root, 'xdg'), 'steps': cfgs}
+
+
+def rel_key(sc):
+    return hashlib.sha1(json.dumps(sc, sort_keys=True).encode()).hexdigest()[:12]
+
+
+def rel_describe(sc, i):
+    st = sc['steps'][i]
+    hist = ', '.join('%s(file %d)' % (s['spelling'], s['file']) for s in sc['steps'][:i]) or 'none'
+    return ('scan %d of a cache history, run from <tree>/%s with the dependency named %s%r (file %d in <tree>/%s, '
+            'mtime_ns %d); earlier cached scans: %s; files: %s'
+            % (i, sc['cwd'], 'through the include directory ' if sc['via'] == 'searchpath' else '', st['spelling'],
+               st['file'], sc['files'][st['file']]['dir'], sc['files'][st['file']]['mtime_ns'], hist,
+               '; '.join('%d=<tree>/%s/%s mtime_ns %d' % (k, f['dir'], REL_DEP, f['mtime_ns'])
+                         for k, f in enumerate(sc['files']))))
+
+
+def rel_judge(ctx, cnt, sc, r, seed):
+    """every scan of the history against the cold scan of the same configuration; returns #evaluations"""
+    if 'error' in r:
+        raise HarnessError('relcache runner failed: %s\n%s' % (r['error'], r.get('trace', '')))
+    n = 0
+    cold, warm, loads = r['cold'], r['warm'], r.get('loads') or []
+    per_file = {}
+    for st, c in zip(sc['steps'], cold):
+        per_file.setdefault(st['file'], c)
+    if len(set(per_file.values())) == len(per_file) and len(per_file) > 1:
+        cnt.hit('relcache:files-distinguishable-in-cold-output')
+    else:
+        cnt.hit('relcache:files-not-distinguishable')
+    if any(c.startswith('RAISED') for c in cold):
+        cnt.hit('relcache:cold-raised')
+    reported = False
+    seen = set()
+    for i, (st, c, w) in enumerate(zip(sc['steps'], cold, warm)):
+        n += 1
+        ld = loads[i] if i < len(loads) else None
+        if ld is not None:
+            cnt.hit('relcache:loads', ld[0])
+            cnt.hit('relcache:hits', ld[1])
+            if (st['file'], st['spelling']) in seen and ld[1]:
+                cnt.hit('relcache:repeated-spelling-answered-from-cache')
+        seen.add((st['file'], st['spelling']))
+        if c == w:
+            cnt.hit('relcache:equal')
+            continue
+        cnt.hit('relcache:differs')
+        if reported:
+            continue
+        reported = True
+        ctx.report_failure('relcache:%s:step%d' % (rel_key(sc), i),
+                           'GIR of a scan with the cache enabled differs from the cold scan of the same inputs '
+                           '("whether dependency GIRs were parsed afresh or came from the cache"): %s: %s (cold vs warm)'
+                           % (first_diff(c, w), rel_describe(sc, i)),
+                           {'kind': 'relcache', 'scenario': sc, 'seed': seed, 'step': i, 'first_diff': first_diff(c, w)})
+    return n
+
+
+def relcache(ctx, cnt, pool, rng, seeds, count, samples):
+    scs = []
+    for i in range(count):
+        # three out of four: the directed class (same mtime, paths differing in leading '.'/'/' only)
+        scs.append(gen_relcache(rng, directed=(i % 4 != 3), via=('searchpath' if i % 3 == 2 else 'uninstalled')))
+    jobs = {}
+    meta = {}
+    for i, sc in enumerate(scs):
+        seed = seeds[i % min(2, len(seeds))]
+        job = rel_materialise(sc, os.path.join(ctx.scratch, 'relcache', 'r%d' % i))
+        job['id'] = 'rel%d' % i
+        jobs.setdefault(seed, []).append(job)
+        meta[job['id']] = (sc, seed)
+    res = pool.run(list(jobs.items()))
+    n = 0
+    for jid, (sc, seed) in meta.items():
+        cnt.case(['relcache', sc], nontrivial=True)
+        cnt.hit('relcache:scenario:%s:%s:%d-files:%s' % ('directed' if sc['directed'] else 'free', sc['via'], len(sc['files']),
+                                                       'same-mtime' if len(set(f['mtime_ns'] for f in sc['files'])) == 1 else 'mtimes-differ'))
+        cnt.hit('relcache:first-cached:%s' % os.path.relpath(sc['files'][sc['steps'][0]['file']]['dir'], sc['cwd']))
+        n += rel_judge(ctx, cnt, sc, res[jid], seed)
+    if scs and len(samples) < 4:
+        samples.append({'op': 'relcache', 'scenario': {k: scs[0][k] for k in ('cwd', 'files', 'via', 'steps')}})
+    if scs and not cnt.counts.get('relcache:files-distinguishable-in-cold-output'):
+        ctx.broken.append('cache histories over relative paths not exercised: in no scenario did the cold outputs tell '
+                          'the dependency files apart')
+    if scs and 'relcache:loads' in cnt.counts and not cnt.counts.get('relcache:hits'):
+        ctx.broken.append('cache histories over relative paths not exercised: no scan of a history was answered from the cache')
+    return n
+
+
 def load_corpus():
     cpath = os.path.join(VERIF, 'corpus', 'C16')
     out = []
@@ -2004,6 +2324,10 @@ def run(ctx):
         inputs_run = min(i + chunk, len(inputs))
         ctx.log('metamorphic: %d/%d inputs, %d scans compared, %d subprocesses' % (inputs_run, len(inputs), n_eval, pool.spawned))
     total += n_eval
+    # ---- cache histories: several builds of one dependency, named by relative paths, cached one after the other
+    n_rel = relcache(ctx, cnt, pool, rng, seeds, ctx.n(24, 160), samples)
+    total += n_rel
+    ctx.log('cache histories over relative dependency paths: %d scans compared with their cold scan' % n_rel)
     # the cold/warm comparison says nothing if the warm runs never got an answer from the cache
     if cnt.counts.get('variant:cache', 0) + cnt.counts.get('variant:xcache', 0) > 0 \
             and 'cache:warm-run-loads' in cnt.counts and cnt.counts.get('cache:warm-run-hits', 0) == 0:
@@ -2036,7 +2360,14 @@ def run(ctx):
                 '+ one of dump/decls-any/decls) and compared byte for byte with the baseline (cache: the cold storing run '
                 'and the warm loading run, xcache: a cache written by a process with another hash seed); plus the '
                 'statement oracle (sibling order = function of names and kinds, keys pairwise distinct) on every baseline '
-                'output. non-trivial = more than 3 declarations / more than one element; distinct by content hash.'
+                'output. Cache histories (relcache:*): 2-3 different builds of one dependency GIR (alias width, '
+                'introspectable alias, record/boxed/enumeration, a missing record, a renamed record) in directories whose '
+                'relative paths from the working directory differ only in leading . and / (x, ./x, ../x, ../../x, s/x, '
+                '../s/x) with the SAME st_mtime_ns (3 of 4 scenarios; the rest any directories / differing mtimes), named '
+                'by --include-uninstalled spellings or found through a relative include directory as the include of an '
+                'include; the scans of a random history (which file is cached first varies) run from that working '
+                'directory with the real CacheStore, each compared byte for byte with the cold scan of the same '
+                'configuration. non-trivial = more than 3 declarations / more than one element; distinct by content hash.'
                 % (len(seeds), nperm),
         'samples': samples,
         'distribution': cnt.counts,
@@ -2088,6 +2419,24 @@ def replay(ctx, rep):
         out = scanpipe.scan(materialise(r['input'], girdir))['gir']
         bad = statement_oracle(out, {})
         print('\n'.join(bad) or 'oracle satisfied')
+        return 1 if bad else 0
+    if r.get('kind') == 'relcache':
+        pool = Pool(ctx, workers=1)
+        sc = r['scenario']
+        job = rel_materialise(sc, os.path.join(ctx.scratch, 'relcache'))
+        job['id'] = 'rel'
+        res = pool.run([(r.get('seed', 0), [job])])['rel']
+        if 'error' in res:
+            print('runner failed: ' + res['error'])
+            return 2
+        bad = 0
+        for i, (c, w) in enumerate(zip(res['cold'], res['warm'])):
+            same = c == w
+            print('scan %d %-28r file %d  loads/hits %s  %s' % (i, sc['steps'][i]['spelling'], sc['steps'][i]['file'],
+                                                              (res.get('loads') or [None] * 99)[i],
+                                                              'identical to the cold scan' if same else
+                                                              'DIFFERENT from the cold scan: ' + first_diff(c, w)))
+            bad += 0 if same else 1
         return 1 if bad else 0
     if r.get('kind') == 'meta':
         pool = Pool(ctx, workers=2)
